@@ -7,6 +7,7 @@ CONSTANTS
   UseMerge = TRUE
   UseSnap = TRUE
   UseDup = FALSE
+  DupElems = FALSE
   BeyondLen = 0
   Reps <- MCReps
   Actors <- MCActors
